@@ -230,20 +230,20 @@ theorem rot_errors (l : Bits) (k : Int) (s e : Option Int) :
 
 /-! ### set -/
 
-/-- `set(v)` = `_setint(-1 | 0)` writes the all-ones / all-zeros word of the current length.
-    Known deviation: on an empty bitstring `_setint` raises (`setAllEmpty`). -/
-theorem set_all_eq_spec_partial (l : Bits) (v : Bool) (h : l ≠ []) : Alg.set l v .all = Spec.set l v .all := by
-  have h0 : ¬ l.length = 0 := by simpa using h
-  show (if l.length = 0 then (⟨.error .value, l⟩ : Outcome) else ⟨.ok .none, intToBits l.length (if v then -1 else 0)⟩) =
+/-- `set(v)` = `_setint(-1 | 0)` (skipped for an empty bitstring) writes the all-ones / all-zeros word of the current
+    length: every bit is `v`. -/
+theorem set_all_eq_spec (l : Bits) (v : Bool) : Alg.set l v .all = Spec.set l v .all := by
+  show (if l.length = 0 then (⟨.ok .none, l⟩ : Outcome) else ⟨.ok .none, intToBits l.length (if v then -1 else 0)⟩) =
     ⟨.ok .none, List.replicate l.length v⟩
-  rw [if_neg h0]
-  cases v
-  · simp only [Bool.false_eq_true, if_false]; rw [intToBits_zero]
-  · simp only [if_true]; rw [intToBits_neg_one]
-
-theorem set_all_empty_witness :
-    Alg.set [] true .all = ⟨.error .value, []⟩ ∧ Spec.set [] true .all = ⟨.ok .none, []⟩ := by
-  decide
+  by_cases h0 : l.length = 0
+  · rw [if_pos h0, h0]
+    have : l = [] := List.eq_nil_of_length_eq_zero h0
+    subst this
+    rfl
+  · rw [if_neg h0]
+    cases v
+    · simp only [Bool.false_eq_true, if_false]; rw [intToBits_zero]
+    · simp only [if_true]; rw [intToBits_neg_one]
 
 /-- The per-position loop of `set` (`self._bitstore[p] = v` for each p) = "apply the longest valid prefix of the
     positions, then raise IndexError iff a position was invalid". -/
@@ -255,23 +255,53 @@ theorem set_one_eq_spec (l : Bits) (v : Bool) (i : Int) : Alg.set l v (.one i) =
   show Alg.setLoop v l [i] = Spec.applyPrefix (fun acc j => acc.set j v) l [i]
   rw [applyPrefix_eq, setLoop_eq v l.length [i] l rfl]
 
-/-- The `range` fast path (`bitarray[a:b:c] = v`) equals the per-position meaning wherever the slice `[a:b:c]`
-    selects exactly the (valid) positions of `range(a, b, c)`; elsewhere it silently differs (`setRangeAsSlice`). -/
-theorem set_range_eq_spec_partial (l : Bits) (v : Bool) (a b c : Int) (h : setRangeAsSlice l a b c = false) :
+/-- `set(v, range(a, b, c))`: the slice fast path (taken when the range is non-empty and its first and last elements
+    are valid non-negative indices: one slice from the first to the last element) and the per-position loop (all other
+    ranges) both have the per-position meaning — every position of the range in order, IndexError at the first
+    invalid one. -/
+theorem set_range_eq_spec (l : Bits) (v : Bool) (a b c : Int) :
     Alg.set l v (.range a b c) = Spec.set l v (.range a b c) :=
-  set_range_eq l v a b c h
+  set_range_eq l v a b c
 
-/-- A sufficient syntactic condition to be outside the region: a non-negative ascending range inside the bitstring. -/
-theorem setRangeAsSlice_false_of_nonneg (l : Bits) (a b c : Int) (ha : 0 ≤ a) (hb0 : 0 ≤ b) (hc : 0 < c) (hb : b ≤ (l.length : Int)) :
-    setRangeAsSlice l a b c = false :=
-  setRangeAsSlice_nonneg l a b c ha hb0 hc hb
+/-- All four kinds of `pos` argument. -/
+theorem set_eq_spec (l : Bits) (v : Bool) (p : PosArg) : Alg.set l v p = Spec.set l v p := by
+  cases p with
+  | all => exact set_all_eq_spec l v
+  | one i => exact set_one_eq_spec l v i
+  | many ps => exact set_many_eq_spec l v ps
+  | range a b c => exact set_range_eq_spec l v a b c
 
-theorem set_range_witness :
-    Alg.set (List.replicate 6 false) true (.range 5 (-1) (-1)) = ⟨.ok .none, List.replicate 6 false⟩ ∧
-    Spec.set (List.replicate 6 false) true (.range 5 (-1) (-1)) = ⟨.ok .none, List.replicate 6 true⟩ ∧
-    Alg.set (List.replicate 6 false) true (.range 0 9 2) = ⟨.ok .none, [true, false, true, false, true, false]⟩ ∧
-    Spec.set (List.replicate 6 false) true (.range 0 9 2) = ⟨.error .index, [true, false, true, false, true, false]⟩ := by
+/-- Ranges the pinned tree got wrong (descending to index 0, crossing zero, running past the end). -/
+theorem set_range_examples :
+    Alg.set (List.replicate 6 false) true (.range 5 (-1) (-1)) = ⟨.ok .none, List.replicate 6 true⟩ ∧
+    Alg.set (List.replicate 6 false) true (.range (-3) 0 1) = ⟨.ok .none, [false, false, false, true, true, true]⟩ ∧
+    Alg.set (List.replicate 6 false) true (.range 0 9 2) = ⟨.error .index, [true, false, true, false, true, false]⟩ := by
   decide
+
+/-- `s[a:b:c] = int` (`_setitem_slice`): for |step| = 1 the integer, as wide as the number of selected positions, is
+    assigned through the slice; for other steps 0 / 1 is written to every selected position (through
+    `set(v, range(*key.indices(len)))`); other integers and step 0 are rejected. -/
+theorem setSliceInt_eq_spec (l : Bits) (a b c : Option Int) (v : Int) :
+    Alg.setSliceInt l a b c v = Spec.setSliceInt l a b c v := by
+  by_cases hc : c = none ∨ c = some 1 ∨ c = some (-1)
+  · rw [Core.alg_setSliceInt_unit l a b c v hc,
+      Core.spec_setSliceInt_unit l a b c v (by rcases hc with h | h | h <;> simp [h])]
+  · cases c with
+    | none => exact absurd (Or.inl rfl) hc
+    | some st =>
+      have hst1 : st ≠ 1 := fun h => hc (Or.inr (Or.inl (by rw [h])))
+      have hstm : st ≠ -1 := fun h => hc (Or.inr (Or.inr (by rw [h])))
+      unfold Alg.setSliceInt
+      rw [if_pos ⟨by simp, by simpa using hstm, by simpa using hst1⟩]
+      by_cases hst0 : st = 0
+      · subst hst0
+        simp [Spec.setSliceInt]
+      · rw [Core.spec_setSliceInt_ext l a b st v hst0 hst1 hstm]
+        by_cases hv : v = 0 ∨ v = 1
+        · rw [if_pos hv, if_pos hv]
+          simp only [Option.getD_some, if_neg hst0]
+          rw [alg_set_slice_range l _ a b st hst0]
+        · rw [if_neg hv, if_neg hv]
 
 /-- Partial prefix: if position number `j` is the first invalid one, exactly the first `j` positions were applied and
     IndexError is raised. -/
@@ -423,7 +453,7 @@ example : Alg.rol [true, true, false, true, false, false] 2 (some 1) (some 1) = 
     Alg.rol [true, false, false] 4 (some 1) none = .ok [true, false, false] ∧
     Alg.rol [true, false, true, true] 5 (some (-3)) none = .ok [true, true, false, true] := by decide
 example : Alg.reverse [true, false, false, true, true] (some 1) (some (-1)) = .ok [true, true, false, false, true] := by decide
-example : setRangeAsSlice [true, false, false, true] 1 4 2 = false ∧ setRangeAsSlice [true, false, false, true] (-3) (-1) 1 = false := by decide
+example : Alg.set [true, false, false, true] false (.range 1 4 2) = ⟨.ok .none, [true, false, false, false]⟩ := by decide
 example : Spec.set [false, false, false, false] true (.many [0, -1, 7, 2]) = ⟨.error .index, [true, false, false, true]⟩ := by decide
 example : Spec.invert [false, true, false] (.many [1, 1, -3]) = ⟨.ok .none, [true, true, false]⟩ := by decide
 
